@@ -455,7 +455,7 @@ def part_oracle(chk, tier):
     conts = G.containers(rng, ntrees) + [{"writer": "zipfile", "sfx": True}, {"writer": "raw", "comment": True}, {"writer": "zipfile"},
                                         {"writer": "raw", "sfx": True, "store_all": True}, {"writer": "zipfile", "comment": True}][:len(degenerate)]
     for i in range(ntrees + len(degenerate)):
-        big = ("bigfiles",) if i % 2 == 0 else ()
+        big = ("bigfiles",)          # every oracle tree holds large members, the first of them always STORED
         if tier == "thorough" and i % 8 == 0:
             big += ("hugefiles",)
         if i < ntrees:
